@@ -42,6 +42,16 @@ class Color(enum.Enum):
     BLUE = "blue"
 
 
+class Corner(str, enum.Enum):  # a string-valued enum in the mix-in form: a `str` and an `Enum` at once
+    FAST = "ff_hot"
+    SLOW = "ss_cold"
+
+
+class Mode(enum.StrEnum):
+    ON = "on"
+    OFF = "off"
+
+
 def _prefixed_ok(pv, want: Prefixed):
     """exact decimal digits and prefix of a Prefixed kept"""
     v = param_value(pv)
@@ -121,7 +131,7 @@ def _dispatch(kind, which, coef, pv):
         return True
     # which == 2: external module with dict parameters: every type the exporter accepts
     vals = {"i": coef, "neg": -coef, "big": 2 ** 62 + coef, "f": coef / 8, "f3": coef / 3, "s": "txt %d" % kind, "lit": h.Literal("w*%d" % kind),
-            "enum": Color.RED if kind % 2 else Color.BLUE, "dec": Decimal(coef).scaleb(-3), "p": v, "none": None, "zero": 0, "fzero": 0.0}
+            "enum": Color.RED if kind % 2 else Color.BLUE, "senum": Corner.FAST if kind % 2 else Corner.SLOW, "strenum": Mode.ON if kind % 3 else Mode.OFF, "dec": Decimal(coef).scaleb(-3), "p": v, "none": None, "zero": 0, "fzero": 0.0}
     E = h.ExternalModule(name="E", port_list=[h.Port(name="a"), h.Port(name="b")], paramtype=dict)
     inst, got = _inst_params(_two_port(E(vals)))
     for k, x in vals.items():
@@ -138,6 +148,8 @@ def _dispatch(kind, which, coef, pv):
             ok = pvv == ("int64_value", x)
         elif isinstance(x, float):
             ok = pvv[0] == "double_value" and pvv[1] == x and repr(pvv[1]) == repr(x)
+        elif isinstance(x, enum.Enum):  # (before `str`: mix-in enums are both)
+            ok = pvv == ("literal", x.value)
         elif isinstance(x, str):
             ok = pvv[0] in ("literal", "string_value") and pvv[1] == x
         elif isinstance(x, h.Literal):
